@@ -572,7 +572,7 @@ def generate(tier, rng):
     base = _exhaustive(4, 5) if quick else _exhaustive(6, 7)
     cases += base
     cases += _attr_cases(6 if quick else 9, rng)
-    cases += _config_sample(base, rng, 1200 if quick else 12000)
+    cases += _config_sample(base, rng, 900 if quick else 10000)
     cases += _random(rng, 400 if quick else 4000, 2000)
     cases += _zero_part_cases(3 if quick else 4)
     cases += _sub_cases(4 if quick else 5)
@@ -801,6 +801,10 @@ def run_case(case):
         else:
             out = r[it, py_cols(i['cols'], cfg['as'])]
         if isinstance(out, BaseEphysReader):
+            if case['kind'] == 'any':
+                # outside the statement only "a reader came back" is compared (a column selector NumPy rejects fails later,
+                # when that reader is read)
+                return ('derived', _dtcode(out.dtype), [])
             b = _block(out[:])
             if b[0] != 'rows':
                 return b
